@@ -304,7 +304,9 @@ func (si *stmtInliner) findSlot(e *ast.Expr) *ast.Expr {
 			// the call itself evaluates them in: they need not be cheap
 			return e
 		}
-		if callIsCheap(si.info, x) {
+		// any other call runs after its operands: a helper call among its arguments can be hoisted in front of the
+		// statement when everything evaluated before it (the function expression, the other arguments) is cheap
+		if tv, isT := si.info.Types[x.Fun]; callIsCheap(si.info, x) || (isT && !tv.IsType() && exprIsCheap(si.info, x.Fun) && !x.Ellipsis.IsValid()) {
 			for i := range x.Args {
 				if r := si.findSlot(&x.Args[i]); r != nil {
 					for j := range x.Args {
@@ -803,9 +805,64 @@ func slotsOf(s ast.Stmt) []*ast.Expr {
 	return out
 }
 
+// processFuncLits dissolves helper calls inside the bodies of the function literals that occur in the expressions of s
+// (not in its nested statements, which processNested visits): a closure's returns are its own, so its body is a
+// statement list with the literal's result types.
+func (si *stmtInliner) processFuncLits(s ast.Stmt) {
+	var exprs []ast.Expr
+	switch x := s.(type) {
+	case *ast.ExprStmt:
+		exprs = append(exprs, x.X)
+	case *ast.AssignStmt:
+		exprs = append(exprs, x.Rhs...)
+	case *ast.ReturnStmt:
+		exprs = append(exprs, x.Results...)
+	case *ast.DeclStmt:
+		if gd, ok := x.Decl.(*ast.GenDecl); ok {
+			for _, sp := range gd.Specs {
+				if vs, ok := sp.(*ast.ValueSpec); ok {
+					exprs = append(exprs, vs.Values...)
+				}
+			}
+		}
+	case *ast.DeferStmt:
+		exprs = append(exprs, x.Call)
+	case *ast.GoStmt:
+		exprs = append(exprs, x.Call)
+	}
+	for _, e := range exprs {
+		ast.Inspect(e, func(n ast.Node) bool {
+			fl, ok := n.(*ast.FuncLit)
+			if !ok {
+				return true
+			}
+			var res *types.Tuple
+			haveSig := false
+			if tv, ok := si.info.Types[fl]; ok {
+				if sig, ok := tv.Type.(*types.Signature); ok {
+					res, haveSig = sig.Results(), true
+				}
+			}
+			named := false
+			if fl.Type.Results != nil {
+				for _, f := range fl.Type.Results.List {
+					if len(f.Names) > 0 {
+						named = true
+					}
+				}
+			}
+			if haveSig && !named {
+				fl.Body.List = si.processList(fl.Body.List, res)
+			}
+			return false
+		})
+	}
+}
+
 func (si *stmtInliner) processList(list []ast.Stmt, results *types.Tuple) []ast.Stmt {
 	var out []ast.Stmt
 	for _, s := range list {
+		si.processFuncLits(s)
 		// `if v := f(x); cond {` -> `{ v := f(x); if cond { } }`
 		if is, ok := s.(*ast.IfStmt); ok && is.Init != nil {
 			found := false
